@@ -14,7 +14,46 @@ macro_rules! p {
     };
 }
 
+/// K1 for C13/C14 (`vconsts --commands`): every AeronCommand variant with its `as i32` value, and the
+/// variant `AeronCommand::from_command_id` returns for every id of the scanned range (ids for which it
+/// panics are omitted). tools/props/c14.py turns this into coq/Generated/GenCommands.v.
+fn dump_commands() {
+    use std::panic::{catch_unwind, set_hook};
+    set_hook(Box::new(|_| {}));
+    macro_rules! variants {
+        ($($v:ident),*) => {{
+            // exhaustive on purpose: a variant added to the enum makes this harness fail to compile
+            fn _complete(c: AeronCommand) { match c { $( AeronCommand::$v => (), )* } }
+            vec![$( AeronCommand::$v ),*]
+        }};
+    }
+    let all = variants!(
+        Padding, AddPublication, RemovePublication, AddExclusivePublication, AddSubscription, RemoveSubscription,
+        ClientKeepAlive, AddDestination, RemoveDestination, AddCounter, RemoveCounter, ClientClose,
+        AddRcvDestination, RemoveRcvDestination, TerminateDriver,
+        ResponseOnError, ResponseOnAvailableImage, ResponseOnPublicationReady, ResponseOnOperationSuccess,
+        ResponseOnUnavailableImage, ResponseOnExclusivePublicationReady, ResponseOnSubscriptionReady,
+        ResponseOnCounterReady, ResponseOnUnavailableCounter, ResponseOnClientTimeout
+    );
+    for c in &all {
+        println!("VARIANT {:?} {}", c, *c as i32);
+    }
+    let (lo, hi): (i32, i32) = (-0x10000, 0x10000);
+    println!("SCAN {} {}", lo, hi);
+    let mut ids: Vec<i32> = (lo..=hi).collect();
+    ids.extend_from_slice(&[i32::MIN, i32::MIN + 1, i32::MAX, i32::MAX - 1, 0xF0000, 0xF09_0000, 0x0F00_0000]);
+    for id in ids {
+        if let Ok(c) = catch_unwind(|| AeronCommand::from_command_id(id)) {
+            println!("FROM {} {:?}", id, c);
+        }
+    }
+}
+
 fn main() {
+    if std::env::args().any(|a| a == "--commands") {
+        dump_commands();
+        return;
+    }
     p!("CACHE_LINE_LENGTH", aeron_rs::utils::misc::CACHE_LINE_LENGTH);
     // log buffer descriptor
     p!("TERM_MIN_LENGTH", lbd::TERM_MIN_LENGTH);
@@ -97,6 +136,7 @@ fn main() {
     p!("REMOVE_MESSAGE_LENGTH", remove_message_flyweight::REMOVE_MESSAGE_LENGTH);
     p!("SUBSCRIPTION_READY_LENGTH", subscription_ready_flyweight::SUBSCRIPTION_READY_LENGTH);
     p!("TERMINATE_DRIVER_LENGTH", terminate_driver_flyweight::TERMINATE_DRIVER_LENGTH);
+    p!("ERROR_CODE_CHANNEL_ENDPOINT_ERROR", error_response_flyweight::ERROR_CODE_CHANNEL_ENDPOINT_ERROR);
     // command / event type codes as the compiler assigned them
     macro_rules! cmd {
         ($($v:ident),*) => { $( p!(concat!("CMD_", stringify!($v)), AeronCommand::$v as i32); )* };
